@@ -35,17 +35,24 @@ class ThreadLocal(Generic[T]):
         """
         self.__default_provider = default_provider
 
+    @staticmethod
+    def __ident() -> int:
+        # not threading.current_thread().ident: we are called from the trace function, also for the last events of a
+        # thread that has already been removed from the threading module's table - current_thread() would then create
+        # (and leave behind) a placeholder thread object that the application sees in threading.enumerate()
+        return threading.get_ident()
+
     def get(self) -> T:
         """
         Get the value stored for the calling thread.
 
         :return: the stored value, or the value from the default_provider
         """
-        current_thread = threading.current_thread()
-        get = self.__store.get(current_thread.ident, None)
+        ident = self.__ident()
+        get = self.__store.get(ident, None)
         if get is None:
             get = self.__default_provider()
-            self.__store[current_thread.ident] = get
+            self.__store[ident] = get
         return get
 
     def set(self, val: T):
@@ -54,14 +61,13 @@ class ThreadLocal(Generic[T]):
 
         :param val: the value to store
         """
-        current_thread = threading.current_thread()
-        self.__store[current_thread.ident] = val
+        self.__store[self.__ident()] = val
 
     def clear(self):
         """Remove the value for this thread."""
-        current_thread = threading.current_thread()
-        if current_thread.ident in self.__store:
-            del self.__store[current_thread.ident]
+        ident = self.__ident()
+        if ident in self.__store:
+            del self.__store[ident]
 
     @property
     def is_set(self):
@@ -70,8 +76,7 @@ class ThreadLocal(Generic[T]):
 
         :return: True if there is a value for this thread
         """
-        current_thread = threading.current_thread()
-        return current_thread.ident in self.__store
+        return self.__ident() in self.__store
 
     @property
     def value(self):
